@@ -472,6 +472,7 @@ func (g *gl) translateFn(fn *glFn) bool {
 // memory is still in use. A variable that is the target of an element write (`b[i] = v`, PutUintN(b[..]), copy(b, …))
 // must be created in the function by make / a literal, and must not be sliced into another variable or field.
 func (g *gl) checkAliasing(fn *glFn) {
+	g.checkPointerSharing(fn)
 	written := map[*types.Var]token.Pos{}
 	root := func(e ast.Expr) *types.Var {
 		for {
@@ -560,6 +561,142 @@ func (g *gl) checkAliasing(fn *glFn) {
 	for i := 0; i < sig.Params().Len(); i++ {
 		if p, w := written[sig.Params().At(i)]; w {
 			g.bad(p, "parameter %s is written through (caller-visible)", sig.Params().At(i).Name())
+		}
+	}
+}
+
+// checkPointerSharing: a pointer to a struct is translated as the struct's value. That is only right while the pointer
+// has one holder: once a local pointer variable has been stored somewhere (a composite literal, an argument of a call
+// other than a method call on it, another variable or field), it must not be written through any more — neither later
+// in the function nor, when the store is inside a loop and the variable is declared outside it, anywhere in that loop
+// (the next iteration would change what the previous one stored).
+func (g *gl) checkPointerSharing(fn *glFn) {
+	isPtrLocal := func(id *ast.Ident) *types.Var {
+		v, _ := g.info().ObjectOf(id).(*types.Var)
+		if v == nil || v.IsField() || v.Pkg() == nil || v.Parent() == v.Pkg().Scope() {
+			return nil
+		}
+		if p, ok := v.Type().(*types.Pointer); ok {
+			if _, ok := p.Elem().Underlying().(*types.Struct); ok && !isBytesBuffer(v.Type()) {
+				return v
+			}
+		}
+		return nil
+	}
+	stores := map[*types.Var][]token.Pos{}
+	muts := map[*types.Var][]token.Pos{}
+	noteStore := func(e ast.Expr) {
+		if id, ok := ast.Unparen(e).(*ast.Ident); ok {
+			if v := isPtrLocal(id); v != nil && v != fn.recv {
+				stores[v] = append(stores[v], id.Pos())
+			}
+		}
+	}
+	rootIdent := func(e ast.Expr) *ast.Ident {
+		for {
+			switch x := ast.Unparen(e).(type) {
+			case *ast.Ident:
+				return x
+			case *ast.SelectorExpr:
+				e = x.X
+			case *ast.StarExpr:
+				e = x.X
+			case *ast.IndexExpr:
+				e = x.X
+			default:
+				return nil
+			}
+		}
+	}
+	ast.Inspect(fn.decl.Body, func(n ast.Node) bool {
+		switch x := n.(type) {
+		case *ast.KeyValueExpr:
+			noteStore(x.Value)
+		case *ast.CompositeLit:
+			for _, el := range x.Elts {
+				noteStore(el)
+			}
+		case *ast.CallExpr:
+			if tv, ok := g.info().Types[x.Fun]; ok && tv.IsType() {
+				return true
+			}
+			if id, ok := ast.Unparen(x.Fun).(*ast.Ident); ok {
+				if _, ok := g.info().Uses[id].(*types.Builtin); ok && id.Name != "append" {
+					return true
+				}
+			}
+			if !g.isLogging(x) {
+				for _, a := range x.Args {
+					noteStore(a)
+				}
+			}
+			// a pointer-receiver method that assigns to its receiver writes through the pointer
+			if _, f := g.calleeName(x); f != nil {
+				if sig := f.Type().(*types.Signature); sig.Recv() != nil {
+					if _, ok := sig.Recv().Type().(*types.Pointer); ok {
+						if t := g.fns[f]; t == nil || !t.done || t.recvPtr {
+							if id := rootIdent(recvExpr(x)); id != nil {
+								if v := isPtrLocal(id); v != nil {
+									muts[v] = append(muts[v], x.Pos())
+								}
+							}
+						}
+					}
+				}
+			}
+		case *ast.AssignStmt:
+			for i, l := range x.Lhs {
+				l = ast.Unparen(l)
+				if _, plain := l.(*ast.Ident); !plain {
+					if id := rootIdent(l); id != nil {
+						if v := isPtrLocal(id); v != nil {
+							muts[v] = append(muts[v], l.Pos())
+						}
+					}
+					if i < len(x.Rhs) {
+						noteStore(x.Rhs[i])
+					}
+				} else if i < len(x.Rhs) && len(x.Lhs) == len(x.Rhs) {
+					// q := p  (a second name for the same struct)
+					if rid, ok := ast.Unparen(x.Rhs[i]).(*ast.Ident); ok && isPtrLocal(rid) != nil && g.info().ObjectOf(rid) != g.info().ObjectOf(l.(*ast.Ident)) {
+						noteStore(x.Rhs[i])
+					}
+				}
+			}
+		case *ast.IncDecStmt:
+			if _, plain := ast.Unparen(x.X).(*ast.Ident); !plain {
+				if id := rootIdent(x.X); id != nil {
+					if v := isPtrLocal(id); v != nil {
+						muts[v] = append(muts[v], x.Pos())
+					}
+				}
+			}
+		}
+		return true
+	})
+	var loops []*ast.BlockStmt
+	ast.Inspect(fn.decl.Body, func(n ast.Node) bool {
+		switch x := n.(type) {
+		case *ast.ForStmt:
+			loops = append(loops, x.Body)
+		case *ast.RangeStmt:
+			loops = append(loops, x.Body)
+		}
+		return true
+	})
+	for v, ss := range stores {
+		for _, s := range ss {
+			for _, m := range muts[v] {
+				bad := m > s
+				for _, lb := range loops {
+					if lb.Pos() <= s && s < lb.End() && lb.Pos() <= m && m < lb.End() && !(lb.Pos() <= v.Pos() && v.Pos() < lb.End()) {
+						bad = true
+					}
+				}
+				if bad {
+					g.bad(m, "%s points to a struct that has been stored elsewhere and is written through afterwards (shared pointer)", v.Name())
+				}
+			}
 		}
 	}
 }
